@@ -63,7 +63,16 @@ func genC22(r *vk.Rand, n int) []c22Event {
 			}
 			evs = append(evs, e)
 		case x < 82:
-			evs = append(evs, c22Event{Kind: "qos-publish", Client: id, Topic: vk.Pick(r, c22Topics), PID: uint16(r.Range(1, 6)), Payload: fmt.Sprintf("q%d", len(evs)), N: int64(r.Intn(3))})
+			e := c22Event{Kind: "qos-publish", Client: id, Topic: vk.Pick(r, c22Topics), PID: uint16(r.Range(1, 6)), Payload: fmt.Sprintf("q%d", len(evs)), N: int64(r.Intn(3))}
+			evs = append(evs, e)
+			if r.Chance(35) {
+				// a resend: the same record written again under the same client and packet id, then (often) resolved
+				e.N = 2
+				evs = append(evs, e)
+				if r.Chance(60) {
+					evs = append(evs, c22Event{Kind: vk.Pick(r, []string{"qos-complete", "qos-complete", "qos-dropped"}), Client: id, PID: e.PID})
+				}
+			}
 		case x < 88:
 			evs = append(evs, c22Event{Kind: "qos-complete", Client: id, PID: uint16(r.Range(1, 6))})
 		case x < 91:
@@ -72,8 +81,10 @@ func genC22(r *vk.Rand, n int) []c22Event {
 			evs = append(evs, c22Event{Kind: "client-expired", Client: id})
 		case x < 96:
 			evs = append(evs, c22Event{Kind: "retained-expired", Topic: vk.Pick(r, c22Topics)})
-		case x < 98:
+		case x < 97:
 			evs = append(evs, c22Event{Kind: "will-sent", Client: id})
+		case x < 98:
+			evs = append(evs, c22Event{Kind: "reopen"})
 		default:
 			evs = append(evs, c22Event{Kind: "sys-tick", N: int64(len(evs))})
 		}
@@ -106,6 +117,18 @@ func openC22(name string) (*c22Backend, error) {
 	return b, nil
 }
 
+// reopen stops the hook and initialises a new one on the same store location (what a broker restart does to the store).
+func (b *c22Backend) reopen() error {
+	_ = b.hook.Stop()
+	b.srv = mqtt.New(&mqtt.Options{Logger: quietLogger()})
+	h, cfg := b.site.open()
+	if err := b.srv.AddHook(h, cfg); err != nil {
+		return err
+	}
+	b.hook = h
+	return nil
+}
+
 func (b *c22Backend) close() {
 	_ = b.hook.Stop()
 	b.site.destroy()
@@ -118,6 +141,10 @@ func (b *c22Backend) apply(e c22Event, seqNo int) {
 		b.clients[e.Client] = cl
 	}
 	switch e.Kind {
+	case "reopen":
+		if err := b.reopen(); err != nil {
+			panic(fmt.Sprintf("C22: reopen %s: %v", b.name, err))
+		}
 	case "established":
 		cl = b.srv.NewClient(nil, "l1", e.Client, false) // a new connection object per connection
 		b.clients[e.Client] = cl
@@ -290,7 +317,7 @@ func uniqStr(a []string) []string {
 
 func checkC22(c *vk.Ctx) {
 	c.Rule = "random sequences of 5-60 storage hook events (session established v4/v5 with/without will and expiry, disconnect with expire 0/1 and taken-over stop cause, subscribed/unsubscribed with 1-2 filters and all options, retained set/clear/no-op (r = 1/-1/0), QoS publish/complete/drop, client and retained expiry, will sent, sys tick) over client ids {a, a:b, b, é/日, a_b, x:1}, filters {c, b:c, x/#, $share/g/t, é/+, 1, t} and topics {t, a:b, RET_t, x/y, 日, c} " +
-		"are applied identically to the badger, pebble, bolt and redis (in-process miniredis) hooks; after the sequence (and once in the middle) Stored{Clients,Subscriptions,RetainedMessages,InflightMessages,SysInfo} are read back from each, storage-key fields dropped, nil/empty unified, sorted, and compared. nontrivial = sequences after which at least three record types are non-empty"
+		"are applied identically to the badger, pebble, bolt and redis (in-process miniredis) hooks; stores are also closed and opened again on the same location inside sequences (2% of events) and after each sequence; QoS publishes are rewritten under the same client and packet id (resend) in 35% of cases before being completed/dropped; after the sequence, after the final reopen (and once in the middle) Stored{Clients,Subscriptions,RetainedMessages,InflightMessages,SysInfo} are read back from each, storage-key fields dropped, nil/empty unified, sorted, and compared. nontrivial = sequences after which at least three record types are non-empty"
 	c.Assumptions = []string{"the ID field of subscription/message records is the storage key and differs by design between redis and the file stores; it is dropped before comparison"}
 	n := c.N(120, 3000)
 	vk.Parallel(n, 8, func(i int) {
@@ -369,7 +396,16 @@ func checkC22(c *vk.Ctx) {
 				compare(k + 1)
 			}
 		}
-		compare(len(evs))
+		if compare(len(evs)) {
+			// and once more after every store was closed and opened again: what was read back must not depend on
+			// what still sat in a write buffer
+			evs = append(evs, c22Event{Kind: "reopen"})
+			for _, b := range bs {
+				b.apply(evs[len(evs)-1], len(evs)-1)
+			}
+			c.Count("reopened_then_compared", 1)
+			compare(len(evs))
+		}
 		if i < 2 {
 			c.Sample(map[string]any{"events": evs})
 		}
